@@ -98,11 +98,11 @@ func (w *World) Probe() {
 			}
 		}
 	}
-	// snapshots created for this block's aggregates
-	for _, a := range w.App.OracleKeeper.GetAggregatedReportsByHeight(w.Ctx, uint64(w.Height)) {
-		n := w.QN(a.QueryId)
+	// snapshots created in this block: for the block's own aggregates (end-block) and for older aggregates of any query
+	// (attestation requests)
+	for _, n := range SortedKeys(byQ) {
 		for _, ts := range byQ[n] {
-			key := crypto.Keccak256([]byte(hex.EncodeToString(a.QueryId) + fmt.Sprint(ts)))
+			key := crypto.Keccak256([]byte(hex.EncodeToString(qid[n]) + fmt.Sprint(ts)))
 			snaps, err := w.App.BridgeKeeper.AttestSnapshotsByReportMap.Get(w.Ctx, key)
 			if err != nil {
 				continue
